@@ -4,7 +4,7 @@ re-verifies each (patch applies, baseline 128/128, demo 0 pristine / non-zero pa
 which checks catch it.  Usage: tools/keep_seeds.py [CNN ...]"""
 import glob, json, os, shutil, subprocess, sys
 ids = sys.argv[1:] or ['C%02d' % i for i in range(1, 21)]
-extra = {'C06': ['C19', 'C03'], 'C03': ['C19', 'C16', 'C15'], 'C04': ['C18', 'C05'], 'C16': ['C12'], 'C08': ['C06']}   # checks of other properties that also exercise the seed's clause
+extra = {'C01': ['C10'], 'C06': ['C19', 'C03'], 'C03': ['C19', 'C16', 'C15'], 'C04': ['C18', 'C05', 'C01'], 'C16': ['C12'], 'C08': ['C06']}   # checks of other properties that also exercise the seed's clause
 results = []
 for pid in ids:
   for src in sorted(glob.glob(f'/tmp/seed-{pid}-out/' + os.environ.get('SEED_GLOB', 'm*'))):
